@@ -195,28 +195,28 @@ fn check_list(before: &[H], after: &[H], font: &Font, lang: &Liang, lhm: i32, rh
     let before_t: Vec<TNode> = before.iter().map(to_tnode).collect();
     let after_t: Vec<TNode> = after.iter().map(to_tnode).collect();
     // domain: a word directly followed by a ligature node that does not belong to the word (it contains
-    // a non-letter, or crosses the 63-letter limit), when the first original character of that ligature
-    // takes part in the rebuilding of the word as its right boundary. TeX §898 then
-    // takes that first character as `hyf_bchar` although it is already inside the following node, and the
-    // rebuilt word repeats the ligature: TeX itself changes the list there (the crate's TeX-verified
-    // tests right_boundary_char_override_3..6 record it). Outside the quantifier, skipped and counted.
+    // a non-letter, or crosses the 63-letter limit). TeX §898 then takes the first original character of
+    // that ligature as `hyf_bchar` although it is already inside the following node. Where this makes
+    // TeX's own rebuilding of the word differ from the nodes it replaces (the rebuilt word repeats the
+    // ligature; the crate's TeX-verified tests right_boundary_char_override_3..6 record it), the list is
+    // outside the quantifier: skipped and counted.
     {
         let nodes: Vec<Node> = before.iter().map(to_node).collect();
         let relaxed = liang::FinderParams { lc: &ascii_lc, uc_hyph: true, l_hyf: 0, r_hyf: 0, hyphen_char_ok: &|_| true };
         for g in (0..nodes.len()).filter(|i| matches!(nodes[*i], Node::Glue)) {
             if let Some(w) = liang::find_word(&nodes, g, &relaxed) {
-                // does the character that TeX takes as hyf_bchar from inside the following ligature node
-                // take part in the rebuilding of the word? (decided by the model: rebuild the word with
-                // and without it and compare)
+                // does TeX's own rebuilding of the word (§903-913 with no hyphen, by the model), with the
+                // character taken from inside the following ligature node as right boundary, give back
+                // the nodes ha..hb?
                 if let (Some(Node::Lig { orig, .. }), liang::Bchar::Char(_)) = (nodes.get(w.hb + 1), w.bchar) {
                     if !orig.is_empty() {
                         let zeros = |wl: &[char]| vec![0u8; wl.len() + 1];
                         let pp = liang::PassParams { hyf: &zeros, lc: &ascii_lc, uc_hyph: true, l_hyf: 1, r_hyf: 1, hyphen_char: '-', always_left_boundary: false, always_rebuild: true, ignore_left_context: false, font_bchar_at_word_end: false };
-                        let mut w2 = w.clone();
-                        w2.bchar = liang::Bchar::NonChar;
-                        if liang::hyphenate_word(&before_t, &w, &font.model, &pp) != liang::hyphenate_word(&before_t, &w2, &font.model, &pp) {
-                            v.out_of_domain = true;
-                            return v;
+                        if let Some((from, rebuilt)) = liang::hyphenate_word(&before_t, &w, &font.model, &pp) {
+                            if rebuilt.as_slice() != &before_t[from..=w.hb] {
+                                v.out_of_domain = true;
+                                return v;
+                            }
                         }
                     }
                 }
@@ -713,7 +713,7 @@ fn main() {
     ctx.assume("\\uchyph > 0, \\hyphenchar = '-', \\lccode = plain TeX's restricted to ASCII: the values the crate hard-codes");
     ctx.assume("'exactly the Liang positions' is read with TeX's own restriction: the positions expected in a word are those at which the transliterated pass (tex.web §902-918: reconstitute, hyphen_passed, the synchronisation of §916) creates a discretionary; inside one reconstituted ligature chain that is only the first odd position (raffish -> raf-fish, never raff-ish)");
     ctx.assume("the pass model reftex::liang::hyphenate_list is a transliteration of tex.web §894-918 written without a TeX binary; it is bound to TeX by the crate's 33 TeX-verified test expectations, which it reproduces node for node (a run refuses to start otherwise)");
-    ctx.assume("synthetic programs have rules over {left boundary, a, b, -} x {a, b, -, right boundary}. Outside the quantifier (skipped and counted): a word directly followed by a ligature node that is not part of the word (it contains a non-letter or crosses the 63-letter limit) when the first original character of that ligature, which TeX §898 uses as hyf_bchar, changes the rebuilt word (decided by the model: the word is rebuilt with and without it) - TeX then uses a character as right boundary although it is already inside the following node and itself repeats the ligature (the crate's TeX-verified tests right_boundary_char_override_3..6 record this)");
+    ctx.assume("synthetic programs have rules over {left boundary, a, b, -} x {a, b, -, right boundary}. Outside the quantifier (skipped and counted): a word directly followed by a ligature node that is not part of the word (it contains a non-letter or crosses the 63-letter limit) when TeX's own rebuilding of that word (tex.web §903-913 without any hyphen, by the model) does not give back the nodes it replaces: TeX §898 uses the first original character of that ligature as hyf_bchar although it is already inside the following node, and itself repeats the ligature (the crate's TeX-verified tests right_boundary_char_override_3..6 record this)");
     ctx.assume("a list in which the invariants hold but whose discretionaries differ from the transliterated TeX pass in their kerns/ligatures is counted (invariants_hold_but_list_differs_from_tex_pass), not judged: the property speaks about letters and positions only");
 
     let repo = std::env::var("VERIF_REPO").unwrap_or("/repo".into());
